@@ -34,6 +34,9 @@ def run(ctx):
         c.tlc_l1(ctx, "Checkpoint.tla", "MC_Checkpoint_dev.cfg", expect_violation="Distinct", workers=2)
     cfg2 = {"Keys": ["k1", "k2"], "MaxCp": 2}
     cfg3 = {"Keys": ["k1", "k2", "k3"], "MaxCp": 2}
+    # one key, one value, no TTL, up to 4 checkpoints: EVERY operation sequence to depth 6 (7 thorough), so that state the model does
+    # not have (caches keyed on "nothing was written since") cannot hide behind a different path to the same abstract state
+    c.graph_leg(ctx, "Checkpoint.tla", "checkpoint", "Gen_Checkpoint_deep.cfg", {"Keys": ["k1"], "MaxCp": 4}, 200, 9, 6 if q else 7)
     if q:
         c.graph_leg(ctx, "Checkpoint.tla", "checkpoint", "Gen_Checkpoint.cfg", cfg2, 300, 10, 3, "Sim_Checkpoint.cfg", 400, 11,
                     sim_cfgobj=cfg3)
